@@ -55,15 +55,17 @@ POOL = [
     '$.orderBy($).toList()',                                                   # 16 plain sort (short trace)
     '$.orderByDescending($).toList()',                                         # 17 a different ordering
     "[$defaults.delete(region).len(), $defaults.get(token), $.len()]",         # 18 host data kept in the shared context
+    '1' + ' + 1' * 220,                                                        # 19 nested deeper than the interpreter's default recursion limit allows
 ]
+DEEP = 19
 DOCS = [[1, 1, 2, 3, 3], [3, 3, 1, 2, 2], [2, 5, 5, 1], [2, 1], [2, 1, 3], [3, 1, 2]]
 CORE_Q = [1, 2, 3, 5, 7, 8, 16, 17]
 MONITOR_Q = [(1, 0), (3, 3), (8, 0), (12, 0), (18, 3)]      # (statement, document)
 BOUNDS = {
     'quick': 'coarse: all unordered pairs (incl. same statement twice) of an 8-statement core with preemption bound 1, 4 deep pairs with bound 2 where points**2 <= 25000 (small documents), each split into 6 disjoint shards, '
-             '4 triples with bound 1; fine: 2 ordered pairs, every line event; monitor: 4 statements',
-    'thorough': 'coarse: all pairs of the 16-statement pool with bound 2 (bound 3 for an 8-pair core), all triples of a 5-statement core with bound 2; '
-                'fine: 40 ordered pairs, every line event; monitor: all 16 statements; yaql.eval module path',
+             '4 triples with bound 1, 1 pair (a statement nested deeper than the default recursion limit allows || a short one) with bound 2; fine: 2 ordered pairs, every line event, on the warm shared context, and 1 pair on a fresh (cold) shared context per schedule; monitor: 4 statements',
+    'thorough': 'coarse: all pairs of the 16-statement pool with bound 2 (bound 3 for an 8-pair core), all triples of a 5-statement core with bound 2, 3 pairs with the deeply nested statement at bound 2; '
+                'fine: 40 ordered pairs, every line event (warm context), 11 pairs on a cold context per schedule; monitor: all statements; yaql.eval module path',
 }
 
 _S = {}
@@ -81,7 +83,11 @@ def world():
 
 def evaluate(i, d):
     w = world()
-    return repr(w['st'][i].evaluate(data=DOCS[d], context=w['root'].create_child_context()))
+    try:
+        return repr(w['st'][i].evaluate(data=DOCS[d], context=w['root'].create_child_context()))
+    except RecursionError:
+        # where exactly the interpreter gives up depends on the depth of the calling thread's own stack
+        raise RecursionError('(message normalised)') from None
 
 
 _base = {}
@@ -329,6 +335,59 @@ def job_fine(a, b, k_lo, k_hi):
     return res
 
 
+def cold_root():
+    """A fresh standard-library context: function definitions nobody has called yet (what a definition builds
+    lazily on its first call is built by whichever thread calls first)."""
+    w = world()
+    w['root'] = yaql.create_context()
+    w['root']['defaults'] = {'region': 'eu', 'token': 's3', 'retries': [3]}
+
+
+def job_fine_cold(a, b, k_lo, k_hi):
+    """As job_fine, but every schedule starts on a fresh shared context (cold definitions): A is preempted at
+    line event k of its FIRST evaluation on that context, B evaluates on the same context, A resumes."""
+    res = Result()
+    world()
+    ba, bb = baseline(*a), baseline(*b)
+    exp = [('ok', ba[1]) if ba[0] == 'ok' else ('exc', ba[1], ba[2]),
+           ('ok', bb[1]) if bb[0] == 'ok' else ('exc', bb[1], bb[2])]
+
+    def body_a():
+        return evaluate(*a)
+
+    def body_b():
+        return evaluate(*b)
+    cold_root()
+    n = sched.count_line_events(body_a, _filter)
+    res.case(('fine-cold', a, b, k_lo, k_hi))
+    for k in range(max(1, k_lo), min(n, k_hi - 1) + 1):
+        CURRENT_CASE[0] = {'kind': 'fine-cold', 'a': list(a), 'b': list(b), 'k': k}
+        cold_root()
+        f = sched.FineExec(body_a, body_b, k, _filter).go()
+        res.evaluations += 1
+        res.transitions += 2
+        res.states += 1
+        res.nontrivial += 1
+        if f.res != exp:
+            cold_root()
+            f2 = sched.FineExec(body_a, body_b, k, _filter).go()
+            case = {'kind': 'fine-cold', 'a': list(a), 'b': list(b), 'k': k, 'texts': [POOL[a[0]], POOL[b[0]]]}
+            if f2.res != f.res:
+                res.fail('schedule outcome not reproducible (state carried over between evaluations) statements=%d|%d' % (a[0], b[0]),
+                         case, 'first run %r, replay %r, alone %r' % (f.res, f2.res, exp), size=1000 + k)
+                continue
+            res.fail('interference on a cold shared context (line granularity) statements=%d|%d' % (a[0], b[0]), case,
+                     'fresh context; A preempted at line event %d of its first evaluation (%r): A->%r B->%r; alone %r'
+                     % (k, f.where, f.res[0], f.res[1], exp), size=1000 + k)
+            res.outcomes['fine-cold violating'] += 1
+        else:
+            res.outcomes['fine-cold clean'] += 1
+    res.extra['fine_cold_line_events'] = {'%d/%d' % (a[0], a[1]): n}
+    cold_root()
+    _base.clear()
+    return res
+
+
 def job_monitor(i, d, k_lo=1, k_hi=1 << 60):
     """Sequential evaluation with the shared-state digest recomputed at every line event in [k_lo, k_hi)."""
     res = Result()
@@ -457,7 +516,7 @@ def job_eval_path(pairs, bound):
 def jobs(tier, seed):
     out = []
     quick = tier == 'quick'
-    core = CORE_Q if quick else list(range(len(POOL)))
+    core = CORE_Q if quick else list(range(DEEP))
     pairs = [((a, 0), (b, 1)) for a, b in itertools.combinations_with_replacement(core, 2)]
     nsh = 24 if quick else 64
     for s in range(nsh):
@@ -479,6 +538,12 @@ def jobs(tier, seed):
         K = 6 if quick else 16
         for k in range(K):
             out.append(('coarse-deep-%d-%02d' % (gi, k), 'job_coarse', ([g], b, 'pair-deep', None, (k, K))))
+    # interpreter-wide settings (recursion limit, switch interval, integer digit limit) are shared by all threads: a
+    # statement that needs more stack than the default limit allows next to short ones, preemption bound 2
+    for gi, g in enumerate([((DEEP, 3), (16, 3))] if quick else [((DEEP, 3), (16, 3)), ((DEEP, 3), (DEEP, 3)), ((DEEP, 3), (8, 0))]):
+        K = 8 if quick else 16
+        for k in range(K):
+            out.append(('coarse-recursion-%d-%02d' % (gi, k), 'job_coarse', ([g], 2, 'pair-recursion', None, (k, K))))
     tcore = [1, 2, 8] if quick else [1, 2, 5, 7, 8]
     triples = [((a, 0), (b, 1), (c, 2)) for a, b, c in itertools.combinations_with_replacement(tcore, 3)]
     if quick:
@@ -497,6 +562,15 @@ def jobs(tier, seed):
         n = sched.count_line_events(lambda: evaluate(*a), _filter)
         for lo in range(1, n + 1, step):
             out.append(('fine-%d-%d-%05d' % (a[0], b[0], lo), 'job_fine', (a, b, lo, lo + step)))
+    # the same on a cold shared context per schedule
+    cold = [((1, 0), (1, 1))] if quick else \
+        [((a, 0), (b, 1)) for a, b in ((1, 1), (1, 2), (7, 7), (10, 10), (8, 8), (3, 3), (12, 12), (9, 9), (5, 5), (13, 13))] + [((18, 3), (18, 3))]
+    for (a, b) in cold:
+        cold_root()
+        n = sched.count_line_events(lambda: evaluate(*a), _filter)
+        cstep = max(100, -(-n // 8)) if quick else 400
+        for lo in range(1, n + 1, cstep):
+            out.append(('fine-cold-%d-%d-%05d' % (a[0], b[0], lo), 'job_fine_cold', (a, b, lo, lo + cstep)))
     mstep = 2500
     for i, d in (MONITOR_Q if quick else [(i, 0) for i in range(len(POOL))]):
         n = sched.count_line_events(lambda: evaluate(i, d), _filter)
@@ -526,6 +600,13 @@ def replay(case):
         a, b = tuple(case['a']), tuple(case['b'])
         f = sched.FineExec(lambda: evaluate(*a), lambda: evaluate(*b), case['k'], _filter).go()
         exp = [baseline(*a), baseline(*b)]
+        return {'observed': repr(f.res), 'expected': repr(exp), 'where': repr(f.where),
+                'ok': all(f.res[j][:2] == exp[j][:2] for j in range(2))}
+    if k == 'fine-cold':
+        a, b = tuple(case['a']), tuple(case['b'])
+        exp = [baseline(*a), baseline(*b)]
+        cold_root()
+        f = sched.FineExec(lambda: evaluate(*a), lambda: evaluate(*b), case['k'], _filter).go()
         return {'observed': repr(f.res), 'expected': repr(exp), 'where': repr(f.where),
                 'ok': all(f.res[j][:2] == exp[j][:2] for j in range(2))}
     if k == 'monitor':
